@@ -57,7 +57,16 @@ SameExcept(b, e, a, r) ==
           (IF b.skip[1] = 0 THEN x # b.skip[2] ELSE y # b.skip[2]) =>
              Pixel(e.dst, a.dw, b.nc, x, y) = Pixel(r, a.dw, b.nc, x, y)
 
+\* ---- C10 through the per-plane (min, max) projection: min = max = v
+UniformMM(b, e, tol) ==
+    \A k \in 1 .. Len(e.mm) : Abs(e.mm[k][1] - b.v[k]) <= tol /\ Abs(e.mm[k][2] - b.v[k]) <= tol
+
 \* ---- group memo
+\* float results of two back-ends: within `ulps` units in the last place, except where both results are
+\* below the cancellation threshold b.thr (a re-associated f64 sum of terms much larger than the result)
+WithinF32(x, r, ulps, thr) ==
+    /\ Len(x) = Len(r)
+    /\ \A i \in 1 .. Len(r) : Abs(x[i] - r[i]) <= ulps \/ (Abs(x[i]) <= thr /\ Abs(r[i]) <= thr)
 Within(x, r, tol) == Len(x) = Len(r) /\ \A i \in 1 .. Len(r) : Abs(x[i] - r[i]) <= tol
 GeAll(x, r, tol) == Len(x) = Len(r) /\ \A i \in 1 .. Len(r) : x[i] >= r[i] - tol
 RefOf(e) == IF "dst" \in DOMAIN e THEN e.dst ELSE IF "dig" \in DOMAIN e THEN e.dig ELSE << >>
@@ -75,12 +84,15 @@ ObsVerdict(b, e, a, grp, ref) ==
     ELSE IF Has(b, "near") /\ ~IsNearestOf(b, e, a) THEN "not-nearest"
     ELSE IF Has(b, "uniform") /\ ~IsUniform(b, e, 0) THEN "not-uniform"
     ELSE IF Has(b, "uniform_ulp1") /\ ~IsUniform(b, e, 1) THEN "not-uniform"
+    ELSE IF Has(b, "uniform_mm") /\ ~UniformMM(b, e, 0) THEN "not-uniform"
+    ELSE IF Has(b, "uniform_mm_ulp1") /\ ~UniformMM(b, e, 1) THEN "not-uniform"
     ELSE IF Has(b, "range") /\ ~InRange(e, 0) THEN "out-of-source-range"
     ELSE IF Has(b, "range_ulp1") /\ ~InRange(e, 1) THEN "out-of-source-range"
     ELSE IF Has(b, "alpha_zero") /\ ~ZeroAlphaZeroColour(b, e) THEN "colour-under-zero-alpha"
     ELSE IF inGroup /\ Has(b, "memo_exact") /\ RefOf(e) # ref THEN "differs-from-group"
     ELSE IF inGroup /\ Has(b, "memo_pm1") /\ ~Within(e.dst, ref, 1) THEN "differs-from-group"
     ELSE IF inGroup /\ Has(b, "memo_ulp") /\ ~Within(e.dst, ref, b.ulps) THEN "differs-from-group"
+    ELSE IF inGroup /\ Has(b, "memo_f32") /\ ~WithinF32(e.dst, ref, b.ulps, b.thr) THEN "differs-from-group"
     ELSE IF inGroup /\ Has(b, "mono") /\ ~GeAll(e.dst, ref, 0) THEN "not-monotone"
     ELSE IF inGroup /\ Has(b, "mono_ulp1") /\ ~GeAll(e.dst, ref, 1) THEN "not-monotone"
     ELSE IF inGroup /\ Has(b, "same_except") /\ ~SameExcept(b, e, a, ref) THEN "resampled-along-unchanged-dimension"
